@@ -247,6 +247,35 @@ func (g *genCfg) gen(v reflect.Value) {
 			for _, f := range u.Fields {
 				sub.gen(v.Field(f.Index))
 			}
+			// values equal to the declared defaults (the encoder omits such optional fields), taken from
+			// a default-initialised exemplar so that strings share their storage with the default,
+			// and proper prefixes of default strings (same data pointer, shorter)
+			if ini, ok := reflect.New(t).Interface().(interface{ InitDefault() }); ok && g.r.Intn(3) == 0 {
+				ini.InitDefault()
+				ex := reflect.ValueOf(ini).Elem()
+				for _, f := range u.Fields {
+					fv, dv := v.Field(f.Index), ex.Field(f.Index)
+					switch fv.Kind() {
+					case reflect.Bool, reflect.Int8, reflect.Int16, reflect.Int32, reflect.Int64, reflect.Int, reflect.Float64:
+						if g.r.Intn(2) == 0 {
+							fv.Set(dv)
+						}
+					case reflect.String:
+						switch g.r.Intn(4) {
+						case 0, 1:
+							fv.Set(dv)
+						case 2:
+							if dv.Len() > 0 {
+								fv.SetString(dv.String()[:g.r.Intn(dv.Len())])
+							}
+						}
+					case reflect.Slice:
+						if fv.Type().Elem().Kind() == reflect.Uint8 && g.r.Intn(2) == 0 {
+							fv.Set(dv)
+						}
+					}
+				}
+			}
 			if u.Holder && g.holders && g.r.Intn(2) == 0 {
 				hf := v.FieldByName("_unknownFields")
 				raw := randUnknownFields(g.r, 200, 100, 1+g.r.Intn(3))
